@@ -17,6 +17,8 @@ structure SF (s : Shared) (t : Tid) (l : Loc) : Prop where
   /-- before the commit, the record registered under the name of a held record is held, too -/
   reg : grow l.pc = true → ∀ g ∈ l.held, (l.pc = .d3 → g.key ≠ l.key) → ∃ g' ∈ l.held, s.lookup g.key = some g'.rid
   vreg : l.pc = .a12 → l.okcur = true → s.lookup l.key = some l.m
+  /-- gcRecord, from its validation to its unlink: the record is the indexed one -/
+  gidx : (l.pc = .g6 ∨ l.pc = .g7 ∨ l.pc = .g8) → l.okcur = true → assoc s.index l.key = some l.m
 
 structure Strong (c : Cfg) (p : PState) : Prop where
   sim : Sim c p
@@ -31,7 +33,7 @@ theorem Strong.init : Strong {} {} where
   sf := fun _ => by rw [loc_default]; constructor <;> simp [inW, inR, grow]
 
 theorem guarded_of_strong {c : Cfg} {p : PState} (h : Strong c p) (t : Tid) : Guarded c t := by
-  refine ⟨?_, ?_, ?_, ?_⟩
+  refine ⟨?_, ?_, ?_, ?_, ?_⟩
   · intro hpc g hg
     have hr := (h.lf t).aw (by simp [hpc, afterWait])
     obtain ⟨a, _⟩ := ((h.lf t).acq (by simp [hpc, acqPc])).1 hr
@@ -50,6 +52,10 @@ theorem guarded_of_strong {c : Cfg} {p : PState} (h : Strong c p) (t : Tid) : Gu
       exact Option.some.inj h2
     exact ((h.lf t).dk (Or.inr hpc)).1 g hmem hkey
   · intro hpc; exact (h.sf t).d3 hpc
+  · intro hpc
+    have hf := (h.sim.thr t).facts
+    simp only [Facts, hpc] at hf
+    exact (h.sf t).gidx (Or.inr (Or.inr hpc)) hf.2
 
 /-- the thread-local invariant is kept by the thread's own step -/
 theorem lf_self {c : Cfg} {p : PState} {t : Tid} {ch : Choice} {s' : Shared} {l' : Loc} {e : Option Ev}
@@ -59,12 +65,16 @@ theorem lf_self {c : Cfg} {p : PState} {t : Tid} {ch : Choice} {s' : Shared} {l'
   have hi := hs.thr t
   cases hpc : (c.loc t).pc <;> simp only [tstep, hpc] at h
   case init =>
-    split at h <;> try cases h
-    split at h <;> cases h
-    rename_i hsorted
-    exact lf_nextPlan (by intro _ _ _ _ _ g hg; cases hg) (by simpa [sortedPlan] using hsorted)
+    split at h
+    · split at h <;> cases h
+      rename_i hsorted
+      exact lf_nextPlan (by intro _ _ _ _ _ g hg; cases hg) (by simpa [sortedPlan] using hsorted)
+    · split at h <;> cases h
+      lf_triv
+    · cases h
   case idle =>
     split at h
+    · cases h
     · cases h
     · split at h <;> cases h
       rename_i hg
@@ -270,5 +280,18 @@ theorem lf_self {c : Cfg} {p : PState} {t : Tid} {ch : Choice} {s' : Shared} {l'
   case c11 => cases h; lf_triv
   case c12 => cases h; exact lf_commitNext _ _
   case cend => cases h; lf_triv
+  case g1 => cases h; lf_triv
+  case g2 => split at h <;> cases h; lf_triv
+  case g3 => cases h; lf_triv
+  case g4 => split at h <;> cases h; lf_triv
+  case g5 => cases h; lf_triv
+  case g6 => (repeat' split at h) <;> cases h <;> lf_triv
+  case g7 => split at h <;> cases h; lf_triv
+  case g8 => cases h; lf_triv
+  case g9 => cases h; lf_triv
+  case g10 => cases h; lf_triv
+  case g11 => cases h; lf_triv
+  case g12 => cases h; lf_triv
+  case g13 => cases h; lf_triv
 
 end NodisVerif.Proofs.TxProg
